@@ -321,8 +321,14 @@ def b_float(m, args, kw, node):
     if isinstance(a, Sym) and a.k == "real":
         return a
     if isinstance(a, str):
-        if a in ("inf", "-inf", "nan"):
-            raise Unsupported("non-finite float", node)
+        from . import lib
+
+        if a in ("inf", "+inf", "Infinity"):
+            return lib.inf_value(m)
+        if a in ("-inf", "-Infinity"):
+            return m.unaryop(ast.USub(), lib.inf_value(m), node)
+        if a == "nan":
+            return NanReal(True, Fraction(0))
         return Fraction(a)
     raise Unsupported("float(%r)" % (a,), node)
 
